@@ -151,10 +151,43 @@ func (fg *FG) call0(st *State, cc *ssa.CallCommon, in ssa.Instruction, resultOf 
 			}
 		}
 	}
+	cloVal := Val{}
+	if !cc.IsInvoke() {
+		cloVal = fg.val(cc.Value)
+	}
+	invoke := cc.IsInvoke()
+	// "callsonce f": the (assumed) callee is modelled as exactly one call of its argument f, a closure
+	// taking no parameters, whose results become the callee's results
+	if c != nil && c.CallsOnce != "" {
+		pn := fg.paramNames(c, callee, sig, cc.IsInvoke())
+		idx := -1
+		for i, n := range pn {
+			if n == c.CallsOnce {
+				idx = i
+			}
+		}
+		if idx < 0 || idx >= len(args) || args[idx].Clo == nil {
+			fg.fail("call to %s: callsonce %s needs a statically known closure argument", ckey, c.CallsOnce)
+		}
+		fg.usedAssumed[c.Key] = true
+		cloVal = args[idx]
+		callee = cloVal.Clo.fn
+		if callee.Signature.Params().Len() != 0 || callee.Signature.Results().Len() != sig.Results().Len() {
+			fg.fail("call to %s: callsonce closure must take no parameters and return what the callee returns", ckey)
+		}
+		ckey = fg.g.keyOf(callee)
+		c = fg.g.contractFor(callee)
+		sig = callee.Signature
+		args = nil
+		invoke = false
+		if callee.Parent() != nil && callee.Parent().Pkg != nil {
+			pkg = callee.Parent().Pkg.Pkg
+		}
+	}
 	if c == nil {
 		if callee != nil && callee.Blocks != nil && fg.g.inRepo(callee) && fg.g.canInline(callee) {
 			var bindings []Val
-			if fv := fg.val(cc.Value); fv.Clo != nil {
+			if fv := cloVal; fv.Clo != nil {
 				bindings = fv.Clo.bindings
 			}
 			return fg.inline(st, callee, args, bindings, in)
@@ -165,7 +198,7 @@ func (fg *FG) call0(st *State, cc *ssa.CallCommon, in ssa.Instruction, resultOf 
 		fg.usedAssumed[c.Key] = true
 	}
 	fg.g.noteCallee(fg, c)
-	names := fg.paramNames(c, callee, sig, cc.IsInvoke())
+	names := fg.paramNames(c, callee, sig, invoke)
 	if len(names) != len(args) {
 		// variadic or mismatch
 		fg.fail("call to %s: contract names %d parameters, call has %d", ckey, len(names), len(args))
@@ -179,7 +212,7 @@ func (fg *FG) call0(st *State, cc *ssa.CallCommon, in ssa.Instruction, resultOf 
 	}
 	// closure free variables are visible by name in the closure's contract
 	if callee != nil && len(callee.FreeVars) > 0 {
-		fv := fg.val(cc.Value)
+		fv := cloVal
 		if fv.Clo == nil || len(fv.Clo.bindings) != len(callee.FreeVars) {
 			fg.fail("call of closure %s whose bindings are not statically known", ckey)
 		}
